@@ -163,9 +163,19 @@ impl<ABBREV: AsRef<str>> PosixTimeZone<ABBREV> {
                 let fold_start =
                     dst_info.end.saturating_add_seconds(diff.saturating_neg());
                 if dst_info.start <= dt && dt < gap_end {
-                    IAmbiguousOffset::Gap {
-                        before: std_offset,
-                        after: dst_offset,
+                    // When DST ends in the same year before it has lasted
+                    // as long as the difference between the offsets
+                    // (including not at all), the clock falls back into
+                    // the skipped interval. Only the part before that
+                    // point is a gap. The rest is shown exactly once, in
+                    // standard time.
+                    if dst_info.start <= dst_info.end && fold_start <= dt {
+                        IAmbiguousOffset::Unambiguous { offset: std_offset }
+                    } else {
+                        IAmbiguousOffset::Gap {
+                            before: std_offset,
+                            after: dst_offset,
+                        }
                     }
                 } else if fold_start <= dt && dt < dst_info.end {
                     IAmbiguousOffset::Fold {
